@@ -74,12 +74,52 @@ def twin_work(exes, start, n):
         ops = case["ops"]
         # root-level assignments are never undone: every later observation must still show them
         root_known = {}
+        clauses = []        # every clause the core has been given or has learnt so far (hooks)
+        bcp_done = False
+        # a network that has become inconsistent at root level (or lost a level in check) is not used any further: the driver skips the
+        # remaining operations; the operation that killed it is two places before the first skipped one
+        dead_from = min([j for j in range(1, len(ops) + 1) if tr.rets.get(j, {}).get("res") == "skip-dead"] or [len(ops) + 3]) - 2
+        # check() at root level that ends in a root-level conflict returns false and leaves an inconsistent (finished) network behind without
+        # any level being lost: nothing after such a call is judged
+        for j in range(2, len(ops) + 1):
+            r = tr.rets.get(j, {}).get("res")
+            if ops[j - 1].startswith("fill") and isinstance(r, dict) and r.get("ok") is False:
+                dead_from = min(dead_from, j)       # the extension to a total assignment ended in a root-level conflict
+                break
+            if ops[j - 1].startswith("check") and r is False:
+                before = tr.obs(j - 1) if ops[j - 2] == "obs" and (j - 1) in tr.rets else None
+                if before is not None and before["lvl"] == 0:
+                    dead_from = min(dead_from, j)
+                    break
         for i in range(1, len(ops) + 1):
+            for h in tr.hooks(i):
+                if h["h"] in ("clause", "learnt"):
+                    clauses.append([net.plit(x) for x in h["l"]])
             if ops[i - 1] != "obs" or i not in tr.rets:
                 continue
             o = tr.obs(i)
             if o is None:
                 continue
+            # unit propagation over clauses is complete and does not depend on the history: at an observation no clause may be falsified or
+            # unit (this is what a learnt clause that watches the wrong literals, or a watcher lost on backtracking, breaks)
+            if not bcp_done and i > case["nconstr"] and i < dead_from:
+                val = o["val"]
+                for cl in clauses:
+                    und, sat = [], False
+                    for (v, sg) in cl:
+                        x = val[v] if v < len(val) else "2"
+                        if x == "2":
+                            und.append((v, sg))
+                        elif (x == "1") == sg:
+                            sat = True
+                            break
+                    if not sat and len(set(und)) <= 1 and not any((v, not sg) in cl for (v, sg) in cl):
+                        part.count("clause states checked at observations")
+                        d = "after op %d '%s' the clause %s is %s under the reported assignment" % (i - 1, ops[i - 2], " ".join(("" if sg else "!") + "b%d" % v for v, sg in cl), "falsified" if not und else "unit but its last literal is unassigned")
+                        part.violation("net/clause-not-propagated", d, {"ops": ops, "detail": d, "driver": "net_drv"})
+                        bcp_done = True
+                        break
+                part.count("observations checked for pending unit / falsified clauses")
             part.count("observations checked against the root-level assignment")
             lost = [v for v, x in root_known.items() if v < len(o["val"]) and o["val"][v] != x]
             if lost:
